@@ -108,6 +108,22 @@ impl StubHooks for NoHooks {
     }
 }
 
+/// Marks the worker as being inside the builder fast path for the watchdog (see `watch::beat`).
+struct FastGuard;
+
+impl FastGuard {
+    fn new() -> FastGuard {
+        crate::run::watch::fast_enter();
+        FastGuard
+    }
+}
+
+impl Drop for FastGuard {
+    fn drop(&mut self) {
+        crate::run::watch::fast_leave();
+    }
+}
+
 thread_local! {
     /// the chain the fast path is replaying right now, so that a panic can be attributed
     static CURRENT_CHAIN: std::cell::RefCell<Vec<BOp>> = const { std::cell::RefCell::new(Vec::new()) };
@@ -127,6 +143,11 @@ pub struct ChainStats {
     pub euler_tol_ok: u64,
     pub builder_inverted: u64,
     pub solver_reads: u64,
+    /// chains of at most this many setters that the model accepts and that are not complete are
+    /// completed with canonical valid values for whatever is missing, so that solve() builds
+    pub complete_upto: usize,
+    pub completed: u64,
+    pub solver_inverted_only: u64,
     pub hash: u64,
     pub mismatch: Option<Vec<BOp>>,
 }
@@ -134,6 +155,58 @@ pub struct ChainStats {
 #[inline]
 fn class_of(e: &IVPError) -> ErrClass {
     ErrClass::of(e)
+}
+
+/// The canonical completion of a chain the model accepts: valid values for every parameter that
+/// is still missing, in a fixed order. Empty if the chain is rejected somewhere or already complete.
+fn completion(ctor: &BOp, ops: &[BOp], dim: DimMode, euler: bool) -> ([BOp; 7], usize) {
+    let mut out = [BOp::Deriv; 7];
+    let mut n = 0;
+    let mut m = Model::new(euler, dim.dynamic);
+    if !matches!(m.expect(ctor), Expect::Ok) {
+        return (out, 0);
+    }
+    m.commit(ctor);
+    for op in ops {
+        match m.expect(op) {
+            Expect::Ok | Expect::OkOrErr(_) => m.commit(op),
+            Expect::Err(_) => return (out, 0),
+        }
+    }
+    let mut push = |op: BOp| {
+        out[n] = op;
+        n += 1;
+    };
+    if !euler && !m.tol {
+        push(BOp::Tol(1e-3));
+    }
+    if !m.max {
+        push(BOp::Max(0.5));
+    }
+    if !euler && !m.min {
+        push(BOp::Min(1e-3));
+    }
+    let start = match (m.start, m.end) {
+        (Some(s), _) => s,
+        (None, Some(e)) => {
+            push(BOp::Start(e - 1.0));
+            e - 1.0
+        }
+        (None, None) => {
+            push(BOp::Start(0.0));
+            0.0
+        }
+    };
+    if m.end.is_none() {
+        push(BOp::End(start + 1.0));
+    }
+    if !m.ic {
+        push(BOp::IcSlice);
+    }
+    if !m.deriv {
+        push(BOp::Deriv);
+    }
+    (out, n)
 }
 
 /// Replay one chain (constructor, setters, then `solve`) on the real builder of type S, checking
@@ -159,6 +232,7 @@ where
     });
     cs.chains += 1;
     cs.calls += 1;
+    crate::run::watch::beat();
     let exp = model.expect(ctor);
     let r = match ctor {
         BOp::New => S::new(),
@@ -181,7 +255,13 @@ where
         }
     };
     let mut prev_bounds: (Option<f64>, Option<f64>) = (None, None);
-    for op in ops {
+    let mut inverted_now = false;
+    let (extra, n_extra) = if cs.complete_upto > 0 && ops.len() <= cs.complete_upto { completion(ctor, ops, dim, euler) } else { ([BOp::Deriv; 7], 0) };
+    if n_extra > 0 {
+        cs.completed += 1;
+        CURRENT_CHAIN.with(|c| c.borrow_mut().extend_from_slice(&extra[..n_extra]));
+    }
+    for op in ops.iter().chain(extra[..n_extra].iter()) {
         cs.calls += 1;
         let exp = model.expect(op);
         let r = match *op {
@@ -208,12 +288,14 @@ where
                 // B7
                 if let Some((lo, hi)) = b.dt_bounds() {
                     cs.hook_reads += 1;
+                    inverted_now = false;
                     if let (Some(l), Some(h)) = (lo, hi) {
                         cs.hook_both += 1;
                         if !(l <= h) {
-                            // only what reaches the solver is judged (below); a builder may
-                            // legitimately reconcile its bounds later
+                            // judged at solve() together with what reaches the solver (below);
+                            // a builder may legitimately reconcile its bounds later
                             cs.builder_inverted += 1;
+                            inverted_now = true;
                         }
                         // the call just made moved the *other* bound: a clamping branch ran
                         match *op {
@@ -239,11 +321,14 @@ where
     match b.solve(U::fresh()) {
         Ok(it) => {
             cs.built += 1;
-            // B7: the configuration handed to the solver has minimum <= maximum
+            // B7: the setters left minimum <= maximum, or at the latest solve() did
             if let Some((lo, hi)) = it.verif_solver().solver_bounds() {
                 cs.solver_reads += 1;
                 if !(lo <= hi) {
-                    return false;
+                    if inverted_now {
+                        return false;
+                    }
+                    cs.solver_inverted_only += 1;
                 }
             }
             exp.admits(Outcome::Ok)
@@ -287,6 +372,7 @@ struct EnumChains<'a> {
     /// first setter fixed (parallel work unit), or None for "constructor only"
     first: Option<usize>,
     maxlen: usize,
+    complete_upto: usize,
 }
 
 impl<'a> Visitor for EnumChains<'a> {
@@ -304,7 +390,7 @@ impl<'a> Visitor for EnumChains<'a> {
     {
         let hooks: Rc<dyn StubHooks> = Rc::new(NoHooks);
         let euler = self.kind.is_euler();
-        let mut cs = ChainStats::default();
+        let mut cs = ChainStats { complete_upto: self.complete_upto, ..Default::default() };
         let a = self.alphabet;
         let mut chain: Vec<BOp> = Vec::with_capacity(self.maxlen);
         let mut idx: Vec<usize> = Vec::with_capacity(self.maxlen);
@@ -315,7 +401,7 @@ impl<'a> Visitor for EnumChains<'a> {
             None => {
                 let ok = eval_chain::<S, N, D, U>(&self.ctor, &[], self.dim, euler, &hooks, &mut cs);
                 if !ok {
-                    cs.mismatch = Some(vec![self.ctor]);
+                    cs.mismatch = Some(CURRENT_CHAIN.with(|c| c.borrow().clone()));
                 }
                 return cs;
             }
@@ -334,9 +420,8 @@ impl<'a> Visitor for EnumChains<'a> {
             last_id = id;
             let ok = eval_chain::<S, N, D, U>(&self.ctor, &chain, self.dim, euler, &hooks, &mut cs);
             if !ok {
-                let mut full = vec![self.ctor];
-                full.extend(chain.iter().copied());
-                cs.mismatch = Some(full);
+                // the chain as replayed, with the canonical completion if one was appended
+                cs.mismatch = Some(CURRENT_CHAIN.with(|c| c.borrow().clone()));
                 return cs;
             }
             // descend if every call of this chain is accepted and there is room
@@ -431,6 +516,8 @@ fn merge_chain_stats(st: &mut Stats, kind: Kind, cs: &ChainStats) {
     st.hook_clamped += cs.hook_clamped;
     st.builder_inverted += cs.builder_inverted;
     st.solver_bound_reads += cs.solver_reads;
+    st.chains_completed += cs.completed;
+    st.solver_inverted_only += cs.solver_inverted_only;
     st.euler_tol_nonpositive_ok += cs.euler_tol_ok;
     st.chain_hash = st.chain_hash.wrapping_add(cs.hash);
 }
@@ -474,7 +561,7 @@ fn confirm_with(mode: u8, unit: u64, kind: Kind, dim: DimMode, field: Field, dat
     let b = [Budget { max_calls: 2_000, max_polls: 2_000 }];
     let r = execute(&spec, &b, &ExecOpts::default());
     match r.violation {
-        Some(v) => st.violations.push(FoundViolation { id: (mode, unit, 0), spec, budgets: b.to_vec(), violation: v }),
+        Some(v) => st.found(FoundViolation { id: (mode, unit, 0), spec, budgets: b.to_vec(), violation: v }),
         None => errs.push(format!(
             "builder enumeration disagreed with the model on {:?} for {} but the replayable path does not",
             chain,
@@ -489,15 +576,22 @@ pub fn run_bexh_unit(
     unit: &(Kind, DimMode, Field, BOp, Option<usize>),
     alphabet: &[BOp],
     maxlen: usize,
+    complete_upto: usize,
     st: &mut Stats,
     errs: &mut Vec<String>,
 ) {
+    let _fast = FastGuard::new();
     let (kind, dim, field, ctor, first) = *unit;
-    let v = EnumChains { kind, dim, ctor, alphabet, first, maxlen };
+    let v = EnumChains { kind, dim, ctor, alphabet, first, maxlen, complete_upto };
     let r = catch_unwind(AssertUnwindSafe(|| dispatch(kind, dim, field, DataMode::Unit, v)));
     match r {
         Ok(cs) => {
             merge_chain_stats(st, kind, &cs);
+            if mode == crate::stats::MODE_BEXH {
+                // only the main enumeration is counted as distinct cases: the deeper sub-alphabet
+                // chains, the orders, subsets and insertions overlap with it and with each other
+                st.bexh_distinct += cs.rejected + cs.built;
+            }
             if let Some(chain) = cs.mismatch {
                 confirm(mode, ui, kind, dim, field, chain, st, errs);
             }
@@ -512,7 +606,7 @@ pub fn run_bexh_unit(
                 let b = [Budget { max_calls: 2_000, max_polls: 2_000 }];
                 let r = execute(&spec, &b, &ExecOpts::default());
                 if let Some(v) = r.violation {
-                    st.violations.push(FoundViolation { id: (mode, ui, 0), spec, budgets: b.to_vec(), violation: v });
+                    st.found(FoundViolation { id: (mode, ui, 0), spec, budgets: b.to_vec(), violation: v });
                 }
             }
             if st.violations.len() == before {
@@ -553,7 +647,7 @@ fn find_panic(
             let spec = chain_spec(kind, dim, field, chain.clone(), true);
             let r = execute(&spec, &b, &ExecOpts::default());
             if let Some(v) = r.violation {
-                st.violations.push(FoundViolation { id: (crate::stats::MODE_BEXH, ui, 0), spec, budgets: b.to_vec(), violation: v });
+                st.found(FoundViolation { id: (crate::stats::MODE_BEXH, ui, 0), spec, budgets: b.to_vec(), violation: v });
                 return;
             }
             let accepted = r.insts[0].builder_rejected.is_none();
@@ -684,6 +778,7 @@ pub fn bperm_f_groups() -> Vec<InstSpec> {
 }
 
 pub fn run_bperm_unit(ui: u64, unit: &(Kind, DimMode, Field), st: &mut Stats, errs: &mut Vec<String>) {
+    let _fast = FastGuard::new();
     let (kind, dim, field) = *unit;
     let ctor = if dim.dynamic { BOp::NewDyn(dim.n) } else { BOp::New };
     let perms = permutations(7);
@@ -718,6 +813,7 @@ pub fn run_bperm_unit(ui: u64, unit: &(Kind, DimMode, Field), st: &mut Stats, er
 /// exactly when a mandatory parameter is among the missing ones (for Euler the tolerance is not
 /// mandatory and one of the two step bounds suffices).
 pub fn run_bmissing_unit(ui: u64, unit: &(Kind, DimMode, Field), st: &mut Stats, errs: &mut Vec<String>) {
+    let _fast = FastGuard::new();
     let (kind, dim, field) = *unit;
     let data = if ui % 2 == 0 { DataMode::Unit } else { DataMode::Counter };
     let ctor = if dim.dynamic { BOp::NewDyn(dim.n) } else { BOp::New };
@@ -766,6 +862,7 @@ pub fn bins_units() -> Vec<(Kind, DimMode, Field, u8)> {
 }
 
 pub fn run_bins_unit(ui: u64, unit: &(Kind, DimMode, Field, u8), alphabet: &[BOp], extras: usize, st: &mut Stats, errs: &mut Vec<String>) {
+    let _fast = FastGuard::new();
     let (kind, dim, field, order) = *unit;
     let ctor = if dim.dynamic { BOp::NewDyn(dim.n) } else { BOp::New };
     let base: Vec<BOp> = match order {
